@@ -41,7 +41,7 @@ ATOMS = ALPHABET + ["b", "x1", "`a b`", "`", "``", "{", "}", "{a+b}", "{a +", "f
                    "lambda", "class", "None", "a:b:c", "a*b", "(", ")", "log(d[0].x)", "f((a + b).real)", "{d[0].x}", "np.log(df['y'].values)",
                    "**'2'", "^\"b\"", "**...", "**('x')", "**1e2", "**True", "**None", "f('a'.upper())", "{[i for i in a]}", "{lambda: 0}", "f(*a, **b)", "{a if b else c}", "~", "~", "~",
                    # exponents far beyond anything enumerable: only their parity with the number of terms can matter
-                   "[c ~ d]", "[c~a] +", "**99999999999999999999", "^9999999999", "**(12345678901234567890123)", "** 18446744073709551616", "**7", "^12", "**40", "**5"]
+                   "[c ~ d]", "[c~a] +", "2:a", "2:a +", "3:b:a", "2:a_hat", "+ .", "2.5:y", "**99999999999999999999", "^9999999999", "**(12345678901234567890123)", "** 18446744073709551616", "**7", "^12", "**40", "**5"]
 FLAGSETS = c01.FLAG_SUBSETS
 _PARSERS: dict = {}
 
@@ -411,7 +411,8 @@ def _p(s, flags=("TWOSIDED", "MULTIPART"), icpt=True, ctx=False):
 
 PINNED = [_p("(a]"), _p("a**(0)"), _p("a**00"), _p("a**1.2.3"), _p("(a-a)/b"), _p("b %in% (a-a)"), _p("f(``)"), _p("f(`class`)"),
           _p("y ~ .", icpt=False, ctx=True), _p("a:--b"), _p("[[a~b]~c]", flags=("TWOSIDED", "MULTIPART", "MULTISTAGE")),
-          _p("[a ~ b] + [c ~ d]", flags=("TWOSIDED", "MULTIPART", "MULTISTAGE"), icpt=False), _p("log(d[0].x) ~ z"), _p("f((a + b).real) ~ x"), _p("{"), _p("`"), _p("'"), _p("a %in"), _p("")]
+          _p("[a ~ b] + [c ~ d]", flags=("TWOSIDED", "MULTIPART", "MULTISTAGE"), icpt=False), _p("2:a + .", ctx=True), _p("y ~ 3:b + . + 2:a", ctx=True),
+          _p("2:a_hat + [a ~ b]", flags=("TWOSIDED", "MULTIPART", "MULTISTAGE")), _p("[a ~ b]:2 + [a ~ c]", flags=("TWOSIDED", "MULTIPART", "MULTISTAGE")), _p("log(d[0].x) ~ z"), _p("f((a + b).real) ~ x"), _p("{"), _p("`"), _p("'"), _p("a %in"), _p("")]
 SUBS = {
     "tokens_exhaustive": Sub(judge=judge, enum=enum_tokens, min_decided=10000),
     "fuzz": Sub(judge=judge, gen=gen_fuzz, quick=30000, thorough=1_500_000, min_decided=5000),
